@@ -22,7 +22,7 @@
     to the fields the search reads can happen, whatever the other threads do: the search returns
     the same result at any later point of the window, and it has no effect on shared memory.
     (The lane discipline this argument uses is itself a theorem about this model:
-    [HashMapLemmas.rehash_excludes_gets].)
+    [HashMapLemmas.rehash_exclusive].)
 
     Definitions only; the proofs are in HashMapLemmas.v. *)
 From Coq Require Export List NArith Arith Bool.
